@@ -421,6 +421,35 @@ fn install_and_check(ctx: &Ctx, rng: &mut Rng, is128: bool, path: &str, st: &mut
     if st.sample.len() < 3 {
         st.sample.push(jobj! {"path"=>path,"is128"=>is128,"quiet_frames"=>quiet_frames,"screen_head"=>crate::json::hex(&scr[..16])});
     }
+    // a host operation that leaves the display file as it is leaves the picture as it is: take a
+    // snapshot (48K: the SNA writer parks PC on the stack image meanwhile) with the stack inside or
+    // outside the display file, then judge more frames
+    if rng.chance(1, 3) {
+        let mut rf = m.regs();
+        rf.sp = if rng.chance(2, 3) { 0x4002 + rng.below(6908) as u16 } else { 0xBF00 };
+        m.set_regs(&rf);
+        let before: Vec<u8> = (0..6912u16).map(|i| m.peek(0x4000 + i)).collect();
+        let mut rec = crate::host::VecRecorder { data: vec![], chunk: 0 };
+        let r = crate::host::catch(|| m.emu.save_snapshot(rustzx_core::host::SnapshotRecorder::Sna(&mut rec)).is_ok());
+        if r != Ok(true) {
+            return; // saving is C13's business
+        }
+        let after: Vec<u8> = (0..6912u16).map(|i| m.peek(0x4000 + i)).collect();
+        if before != after {
+            return; // reported by C13 (side effect on memory)
+        }
+        let more = 1 + rng.below(3) as usize;
+        m.run_frames(more);
+        st.frames += more as u64;
+        st.paths.insert(format!("{}:{}+save", is128, path));
+        if matches(&m, &shown).is_none() {
+            ctx.violation(
+                &format!("canvas:{}:after-snapshot-save", if is128 { "128k" } else { "48k" }),
+                &format!("screen installed by path '{}', SNA saved with SP={:04x} (display file unchanged by it): {} frame(s) later the canvas is not the standard decode: {}", path, rf.sp, more, first_diff(&m, &shown)),
+                jobj! {"case"=>case,"is128"=>is128,"path"=>path,"sp"=>rf.sp},
+            );
+        }
+    }
 }
 
 /// flash: phase uniform within a frame and flipping exactly every 16 frames
